@@ -347,6 +347,11 @@ func generate(a wh.Args, out *wh.Out) {
 	genHash(rng, out, thorough)
 	genMetaKey(rng, out)
 	genTimeout(out)
+	if thorough {
+		genCtx(rng, out, 1500, 400)
+	} else {
+		genCtx(rng, out, 120, 48)
+	}
 	for i := 0; i < nConc; i++ {
 		g := 1 + i%32
 		genConc(rng, out, "mwc", g)
